@@ -222,6 +222,9 @@ func (e *Env) expr(x ast.Expr) Val {
 		return Val{S: e.subStr(base.S, lo, hi), T: base.T}
 	case *ast.CompositeLit:
 		t := e.typeOf(x)
+		if isBuilder(t) {
+			return Val{S: cx.zeroOf(t), T: t}
+		}
 		st, ok := t.Underlying().(*types.Struct)
 		if !ok {
 			e.fail(x, "composite literal of "+t.String())
@@ -490,6 +493,8 @@ func (e *Env) call(x *ast.CallExpr) Val {
 		}
 		_, kh := cx.mapKeys(mt)
 		return Val{S: fmt.Sprintf("(select (select %s %s) %s)", e.heap(kh), m.S, k.S), T: types.Typ[types.Bool]}
+	case "traceSeq", "fullSeq":
+		return e.traceSeq(x, name == "fullSeq")
 	case "ncalls":
 		name := e.strArg(x, 0)
 		n := 0
@@ -1335,4 +1340,132 @@ func (cx *Cx) foldBaseFacts() []string {
 		}
 	}
 	return out
+}
+
+var layoutCalls = map[string]bool{
+	"(*CodeWriter).WriteSpace": true, "(*CodeWriter).WriteNewline": true, "(*CodeWriter).WriteIndent": true,
+	"(*CodeWriter).IncreaseIndent": true, "(*CodeWriter).DecreaseIndent": true,
+}
+
+// traceSeq(ev...): the ghost call trace since the last loop head (or function entry) consists of exactly the listed
+// events, in order. traceSeq ignores layout calls (WriteSpace/WriteNewline/WriteIndent/Increase-/DecreaseIndent);
+// fullSeq does not. Event descriptors: evLC(comments) evMap(pos) evNamedMap(line,col,name) evStr(s) evRune(r) evSemi()
+// evNode(n) (dynamic n.WriteTo) evChild(p) (static p.WriteTo on a concrete node) evPrec(n) (n.Precedence()) and, for
+// fullSeq, evSpace() evNewline() evIndent() evInc() evDec(); evCall("short key") matches any call of that callee.
+func (e *Env) traceSeq(x *ast.CallExpr, full bool) Val {
+	cx := e.cx
+	start := 0
+	for i, ev := range e.trace {
+		if ev.name == "#loop" {
+			start = i + 1
+		}
+	}
+	var evs []traceEv
+	for _, ev := range e.trace[start:] {
+		if !full && layoutCalls[ev.name] {
+			continue
+		}
+		if strings.HasSuffix(ev.name, "Precedence") {
+			continue // pure queries are not part of the emitted sequence
+		}
+		evs = append(evs, ev)
+	}
+	falseV := Val{S: "false", T: types.Typ[types.Bool]}
+	var conj []string
+	pos := 0
+	wantName := map[string]string{
+		"evLC": "(*CodeWriter).WriteLeadingComments", "evMap": "(*CodeWriter).AddMapping", "evNamedMap": "(*CodeWriter).AddNamedMapping",
+		"evStr": "(*CodeWriter).WriteString", "evRune": "(*CodeWriter).WriteRune", "evSemi": "(*CodeWriter).WriteSemi",
+		"evNode": "slotWriteTo",
+		"evSpace": "(*CodeWriter).WriteSpace", "evNewline": "(*CodeWriter).WriteNewline", "evIndent": "(*CodeWriter).WriteIndent",
+		"evInc": "(*CodeWriter).IncreaseIndent", "evDec": "(*CodeWriter).DecreaseIndent",
+	}
+	// match one descriptor against one event: ok=false if the kinds differ; otherwise the argument equalities
+	match := func(ce *ast.CallExpr, ev traceEv) (bool, []string) {
+		id, _ := ce.Fun.(*ast.Ident)
+		if id == nil {
+			e.fail(ce, "traceSeq arguments must be event descriptors ev...(...)")
+		}
+		switch id.Name {
+		case "evCall":
+			return ev.name == e.strArg(ce, 0), nil
+		case "evChild":
+			if !strings.HasSuffix(ev.name, ").WriteTo") || len(ev.args) < 1 {
+				return false, nil
+			}
+			return true, []string{fmt.Sprintf("(= %s %s)", ev.args[0].S, e.expr(ce.Args[0]).S)}
+		case "evNode":
+			if ev.name != "slotWriteTo" || len(ev.args) < 1 {
+				return false, nil
+			}
+			return true, []string{fmt.Sprintf("(= %s %s)", ev.args[0].S, e.expr(ce.Args[0]).S)}
+		}
+		want := wantName[id.Name]
+		if want == "" {
+			e.fail(ce, "unknown event descriptor "+id.Name)
+		}
+		if ev.name != want || len(ev.args) != len(ce.Args)+1 {
+			return false, nil
+		}
+		var eqs []string
+		for j, arg := range ce.Args {
+			eqs = append(eqs, fmt.Sprintf("(= %s %s)", ev.args[j+1].S, e.expr(arg).S))
+		}
+		return true, eqs
+	}
+	for _, a := range x.Args {
+		ce, ok := a.(*ast.CallExpr)
+		if !ok {
+			e.fail(a, "traceSeq arguments must be event descriptors ev...(...)")
+		}
+		id, _ := ce.Fun.(*ast.Ident)
+		if id != nil && id.Name == "evOpt" {
+			// evOpt(cond, ev): the event is present exactly when cond holds
+			cond := e.expr(ce.Args[0])
+			inner, ok := ce.Args[1].(*ast.CallExpr)
+			if !ok {
+				e.fail(a, "evOpt(cond, ev...(...))")
+			}
+			if pos < len(evs) {
+				if m, eqs := match(inner, evs[pos]); m && !contradictory(eqs) {
+					// present: cond must hold -- unless the following mandatory descriptor is the one that matches here;
+					// kinds of an optional event and its successor differ in every contract, so greedy matching is exact
+					conj = append(conj, cond.S)
+					conj = append(conj, eqs...)
+					pos++
+					continue
+				}
+			}
+			conj = append(conj, "(not "+cond.S+")")
+			continue
+		}
+		if pos >= len(evs) {
+			return falseV
+		}
+		m, eqs := match(ce, evs[pos])
+		if !m {
+			return falseV
+		}
+		conj = append(conj, eqs...)
+		pos++
+	}
+	if pos != len(evs) {
+		return falseV
+	}
+	_ = cx
+	if len(conj) == 0 {
+		return Val{S: "true", T: types.Typ[types.Bool]}
+	}
+	return Val{S: "(and " + strings.Join(conj, " ") + " true)", T: types.Typ[types.Bool]}
+}
+
+// contradictory: some equation compares two different integer literals.
+func contradictory(eqs []string) bool {
+	for _, q := range eqs {
+		var a, b int64
+		if n, _ := fmt.Sscanf(q, "(= %d %d)", &a, &b); n == 2 && a != b {
+			return true
+		}
+	}
+	return false
 }
